@@ -72,7 +72,7 @@ def main():
                 row['repo_tests'] = t.stdout.strip().splitlines()[-1] if t.stdout.strip() else '?'
             for pid in m['props']:
                 t0 = time.time()
-                env = dict(os.environ, VERIF_REPO=tree, VERIF_SEED=args.seed)
+                env = dict(os.environ, VERIF_REPO=tree, VERIF_SEED=args.seed, VERIF_EVIDENCE_DIR=tree + '-evidence')
                 c = subprocess.run([str(ROOT / 'check'), pid, '--tier', 'quick'], env=env, capture_output=True,
                                    text=True, cwd=str(ROOT))
                 mon = [l.strip() for l in c.stdout.splitlines() if l.strip().startswith('monitor=')]
@@ -82,10 +82,9 @@ def main():
         finally:
             sh(f'git -C /repo worktree remove --force {tree}')
             shutil.rmtree(tree, ignore_errors=True)
+            shutil.rmtree(tree + '-evidence', ignore_errors=True)
     missed = [r['id'] for r in results if any(isinstance(v, dict) and v.get('exit') != 1 for v in r.values())]
     print(f'{len(results)} mutations, missed: {missed}, stale anchors: {stale}')
-    # the evidence files were rewritten by runs against mutated trees: do not leave them behind
-    sh(f'cd {ROOT} && git checkout -- evidence 2>/dev/null')
     return 1 if missed or stale else 0
 
 
